@@ -7,7 +7,9 @@ import subprocess
 V = os.path.dirname(os.path.dirname(os.path.abspath(__file__)))
 
 LIFECYCLE_NOTE = ("Trusted: Lean kernel; the hand-written Lean model of session.go/cache.go (tied to /repo on every run by differential "
-                  "execution under the Go virtual clock and by the property's monitor on the real code's transcripts); Go runtime and "
+                  "execution under the Go virtual clock, by the property's monitor on the real code's transcripts, by equivalence theorems "
+                  "with eleven functions translated from the source, and by the decision logic regenerated as expression trees); the go/ast "
+                  "extractor and the small interpreters that give its output a meaning; Go runtime and "
                   "standard library; unguessable ids; request granularity (same-id atomicity comes from C13 + the lock bracket in Start).")
 
 CHECKS = {
@@ -39,6 +41,11 @@ CHECKS["C15"] = ("proof", "Lock discipline: the access table of every Session fi
 
 PENDING = {}
 
+IR_SUFFIX = (" The bodies of RegenerateID, Destroy, cache.Set/Get/Delete, Set/Delete/LogOut/GetAndDelete/Get and LogIn are TRANSLATED from the "
+             "source on every run into a deep-embedded IR and proved equal to the model's functions for all states (FactsIr*), so the "
+             "model theorems about those functions are theorems about the code as it is now, modulo the interpreter's seam (DESIGN 13.2).")
+IR_PROPS = ("C01", "C04", "C05", "C07", "C08", "C09", "C10", "C12", "C18")
+
 TECHNIQUE = {
     "C03": "Lean 4 theorems about an executable model (T-local + history-level invariant) + decision logic regenerated from the source and proved equal to the model's + differential correspondence with the real code + property monitor",
     "C04": "Lean 4 theorems about an executable model (T-local + history-level ghost invariant) + decision logic regenerated from the source + differential correspondence + property monitor + concurrent Start scenarios",
@@ -67,7 +74,7 @@ def main():
             "evidence_file": "/verif/evidence/%s.json" % pid,
             "replay_cmd_template": "bin/check %s --replay {path}" % pid,
             "engine": "lean-model+harness",
-            "level_claimed": {"category": cat, "text": text, "design_ref": "DESIGN.md §" + ref},
+            "level_claimed": {"category": cat, "text": text + (IR_SUFFIX if pid in IR_PROPS else ""), "design_ref": "DESIGN.md §" + ref},
             "level_note": LIFECYCLE_NOTE if pid not in ("C13", "C14", "C15", "C16", "C17", "C19", "C20") else
             "Trusted: Lean kernel; the lexical lock-state walker of the go/ast extractor; sync.RWMutex/Mutex and the Go memory model (a release happens-before a later acquire); the race detector is used as a search, not as the proof." if pid == "C15" else
             "Trusted: Lean kernel; the transition system transcribed by hand from mutexes.go (tied to /repo by trace conformance on every run); Go runtime (channel rendezvous, select, scheduler, virtual clock); holds shorter than the staleness timeout." if pid in ("C13", "C14") else
